@@ -54,10 +54,22 @@ def sync_src():
     """rsync /repo working tree into the cache (mtimes preserved => incremental rebuilds)."""
     with _Lock('src'):
         os.makedirs(SRC, exist_ok=True)
-        r = subprocess.run(['rsync', '-a', '--delete', '--exclude', '/_build', '--exclude', '/.git',
+        r = subprocess.run(['rsync', '-a', '-c', '--delete', '-i', '--exclude', '/_build', '--exclude', '/.git', '--exclude', '/SEED',
                             REPO + '/', SRC + '/'], capture_output=True, text=True)
         if r.returncode != 0:
             raise RuntimeError('rsync failed: ' + r.stderr)
+        # (-c: decide by content, so that the fresh mtimes given below do not cause re-transfers next time)
+        # A transferred file keeps the mtime it has in the source tree, which may be OLDER than the objects built from
+        # the previous content (git checkout of an older state, switching XV_REPO): give every file whose content was
+        # transferred a fresh mtime so that ninja rebuilds what depends on it.
+        now = time.time()
+        for l in r.stdout.splitlines():
+            if l.startswith('>f') and ' ' in l:
+                path = os.path.join(SRC, l.split(' ', 1)[1])
+                try:
+                    os.utime(path, (now, now))
+                except OSError:
+                    pass
 
 
 def build_lib(flavour, sync=True):
